@@ -928,6 +928,7 @@ package rueidis
 //@   assert [C23 replica-address-recorded-only-after-role-slave] at Store#2: !isMaster && arg0 == &c.rAddr && first(returned(ToArray))[0].string() == "slave" && second(returned(ToArray)) == nil
 //@   assert [C23 replica-connection-installed-only-after-role-slave] at Swap#2: !isMaster && arg0 == &c.rConn && first(returned(ToArray))[0].string() == "slave" && second(returned(ToArray)) == nil
 //@   ensures [C23 a-node-that-answered-but-is-not-installed-is-closed where-defined] (calls(ToArray) == 1 && second(returned(ToArray)) == nil && err != nil) ==> (calls(Swap) == 0 && calls(Store) == 0 && calls(Close) >= 1)
+//@   ensures [C23 success-means-the-candidate-just-answered-role-and-was-installed] (err == nil && returned(LoadUint32) != 1) ==> (calls(Do) == 1 && calls(Swap) == 1 && calls(Store) == 1)
 //@   ensures [C23 a-failed-role-query-installs-nothing] err != nil ==> (calls(Swap) == 0 && calls(Store) == 0)
 
 //@ func sentinelClient._refresh #c23
